@@ -2,6 +2,7 @@ import DuneVerif.Proofs.C13Add
 import DuneVerif.Proofs.C13Wire
 import DuneVerif.Proofs.C13Sub
 import DuneVerif.Proofs.C13Renumber
+import DuneVerif.Proofs.C13Tie
 import DuneVerif.Gen.C13
 /-!
 C13 — IndicesSyncer completes index sets and remote index lists to mutual consistency.
@@ -654,5 +655,73 @@ example : ((syncS (countingNumberer 2000) exW [0, 0, 0])[2]?).map (fun x => (x.1
 gets them back, two calls, free list empty afterwards -/
 example : ((syncS (counted slotNumberer) exW [(([], 3000), 0), (([0], 3000), 0), (([0, 1], 3000), 0)])[2]?).map
     (fun x => (x.1.idx, x.2)) = some ([⟨3, 1, 0⟩, ⟨4, 2, 1⟩, ⟨6, 1, 2⟩], (([], 3000), 2)) := by decide
+
+/-! ### round four: more of the source read as data (Gen/C13.lean, tr_c13.py) and tied to the protocol model -/
+
+/-- **Statement order of `sync(numberer, useFixedOrder)`**, regenerated from the source: the message sizes are computed
+once and before the packing loop; packing and receiving are two different loops over *all* old neighbours (start 0,
+`<` number of old neighbours, step 1), the first finished before the second begins — so every message is packed from
+the pre-sync state and no process waits before all its messages are on their way (what `inbox` assumes); the receives
+lie between `beginResize` and `endResize` (one resize: `finish`); `repairLocalIndexPointers` runs after `endResize` and
+before `globalMap_` is emptied (`resolve`); `iteratorsMap_`, `oldMap_`, `addedIndices_`, `globalMap_`, `infoSend_` are
+emptied unconditionally after the receives (a second sync on the same object behaves like the first: histories are
+compositions of `sync`); both sequence numbers are taken from the index set after `endResize` (`isSynced`); the wait
+for the synchronous sends comes after the receives. -/
+theorem sync_phases_sound :
+    syncPhasesOK Gen.syncPhases = true ∧ Gen.packLoop.full = true ∧ Gen.recvLoop.full = true := by decide
+
+/-- non-vacuity: the predicate rejects orders the model does not describe - receiving before all messages are packed
+(one loop doing both), a member that is not emptied (the object-reuse defect `fixes/C13_syncer_object_reusable.patch`
+repaired), repair before the index set is sorted again - and the generated list has all 15 events -/
+example : syncPhasesOK (Gen.syncPhases.map fun e => if e.ph == .recv then { e with loop := 2 } else e) = false ∧
+    syncPhasesOK (Gen.syncPhases.filter fun e => e.ph != .clearInfo) = false ∧
+    syncPhasesOK (Gen.syncPhases.map fun e =>
+      if e.ph == .repair then { e with ph := .endResize } else if e.ph == .endResize then { e with ph := .repair } else e) = false ∧
+    Gen.syncPhases.length = 15 := by decide
+
+/-- **Branch conditions of `insertIntoRemoteIndexList`**, regenerated from the source: the control-flow skeleton the
+translator checks (advance / insert-and-return / scan the run of equal keys / insert unless found) with the
+conditions found in the source *is* the `insertEntry` of the protocol model, on every list - so every theorem above
+that goes through `insertEntry` (all of them, via `insertRemote`) is about the comparisons the code makes now. -/
+theorem insert_conditions_tied (n : RemEntry) (l : List RemEntry) :
+    insertEntryG Gen.insertConds n l = insertEntry n l := by
+  have h : Gen.insertConds = InsertConds.reference := by decide
+  rw [h]
+  exact insertEntryG_reference n l
+
+/-- non-vacuity: other conditions give other functions (`<=` in the advancing loop duplicates a known entry, `==` in
+place of `!=` duplicates too, a dropped negation in the last test duplicates) -/
+example : insertEntryG ⟨.le, .ne, .eq, .eq, true⟩ ⟨3, 1, 0⟩ [⟨3, 1, 0⟩] ≠ insertEntry ⟨3, 1, 0⟩ [⟨3, 1, 0⟩] ∧
+    insertEntryG ⟨.lt, .eq, .eq, .eq, true⟩ ⟨5, 1, 0⟩ [⟨5, 1, 0⟩] ≠ insertEntry ⟨5, 1, 0⟩ [⟨5, 1, 0⟩] ∧
+    insertEntryG ⟨.lt, .ne, .eq, .eq, false⟩ ⟨3, 1, 0⟩ [⟨3, 1, 0⟩] ≠ insertEntry ⟨3, 1, 0⟩ [⟨3, 1, 0⟩] ∧
+    insertEntry ⟨4, 2, 1⟩ [⟨3, 1, 0⟩, ⟨6, 1, 0⟩] = [⟨3, 1, 0⟩, ⟨4, 2, 1⟩, ⟨6, 1, 0⟩] := by decide
+
+/-- **The counters of `calculateMessageSizes` are the counts of the message that is packed.**  `calcInfo` is the
+counting loop (for every index in order, for every holder `h` of it: `infoSend_[h].publish += …`,
+`infoSend_[h].pairs += …`) with the increments regenerated from the source; `itemsFor st q` is the message the model
+lets `packAndSend(q)` write.  For every process count, every partial view, every process and every destination the
+two agree: number of published indices and total number of pairs - the assertions `published == infoSend_[…].publish`
+and `pairs == infoSend_[…].pairs` of `packAndSend` can never fire. -/
+theorem sizes_match_messages (D : Decomp) (w : World) (hw : PartialView D w) (p : Nat) (st : RankState)
+    (hp : w[p]? = some st) (q : Nat) :
+    calcInfo Gen.sizeIncr st q = msgCounts (itemsFor st q) := by
+  have h : Gen.sizeIncr = CountIncr.reference := by decide
+  rw [h]
+  exact calcInfo_reference st ((hw p st hp).rem.nbSorted.imp (fun h => Nat.ne_of_lt h)) q
+
+/-- **The send buffer fits the real message** (`wire_buffer_sufficient` for the counts that occur): whatever the
+packed size of an int, a char and a global index, the bytes `packAndSend(q)` writes for the message of the model are
+at most the bytes `calculateMessageSizes` reserved from *its own* counters. -/
+theorem wire_message_fits (sz : WireTy → Nat) (D : Decomp) (w : World) (hw : PartialView D w) (p : Nat)
+    (st : RankState) (hp : w[p]? = some st) (q : Nat) :
+    Gen.packLayout.bytes sz (msgCounts (itemsFor st q)).1 (msgCounts (itemsFor st q)).2 ≤
+      Gen.sizeLayout.bytes sz (calcInfo Gen.sizeIncr st q).1 (calcInfo Gen.sizeIncr st q).2 := by
+  rw [sizes_match_messages D w hw p st hp q]
+  exact wire_buffer_sufficient sz _ _
+
+/-- non-vacuity: in the example process 0 publishes two indices with two holders each to process 2 (and the same to
+process 1), nothing to itself; counted pairs differ from published indices -/
+example : ∃ s0, exW[0]? = some s0 ∧ calcInfo Gen.sizeIncr s0 2 = (2, 4) ∧ msgCounts (itemsFor s0 2) = (2, 4) ∧
+    calcInfo Gen.sizeIncr s0 0 = (0, 0) := ⟨_, rfl, by decide, by decide, by decide⟩
 
 end DV.C13
